@@ -48,9 +48,16 @@ SPEC = {
     ],
     "assumptions": [
         "only one thread runs at a time and threads switch only at the yield points (first read of a variable from shared memory, start of "
-        "commit, non-transactional read, blocking retry): interleavings INSIDE Transaction::commit on the real parking_lot locks are not "
-        "exhibited (commit is one step, as in the Lean model)",
-        "memory ordering of parking_lot / Arc and lock fairness are not exercised (sequentially consistent baton passing)",
+        "commit, non-transactional read, blocking retry; for the scenarios marked lockgran also before every lock acquisition of "
+        "Transaction::commit, before its write-back and before its publish phase): interleavings inside commit are explored at lock "
+        "granularity for the scenarios marked lockgran (the committing thread is preempted while it really holds parking_lot locks, "
+        "taken with try-lock loops that hand the baton over instead of blocking); for the other scenarios commit is one step",
+        "memory ordering of parking_lot / Arc and parking_lot's fairness / queueing policy are still not exercised (sequentially consistent "
+        "baton passing; a failed try-lock waits until some commit released its locks, nobody is ever queued on a lock)",
+        "the per-variable stores of the publish phase and the wake-ups after it are one step (every written variable is exclusively "
+        "locked meanwhile)",
+        "lock-granularity exploration needs a map that is reset, not rebuilt, between schedules (the lock order is the address order): "
+        "scenarios with remove_free_dart_transac / collapse_edge are explored with commit as one step only",
         "wait_for_change wake-ups: a blocked retry is resumed by the scheduler after another commit; the real parking/unparking is not explored",
         "Arc pointer identity = same write (a logged Arc keeps its allocation alive)",
         "the quantifier 'every interleaving' is covered exhaustively only up to the preemption bound printed in the statistics (all "
@@ -66,14 +73,19 @@ SPEC = {
             "ones is executed on the real crates; per distinct outcome (commit order, results, final snapshot): no panic/hang/deadlock; "
             "results and snapshot = sequential hcimpl run of the committed transactions in commit order (else in some other order); "
             "hcmodel agrees on that sequential script; wf true true true. cases = sequential scripts compared; "
-            "'sched' in the statistics = what the explorer covered.",
+            "'sched' in the statistics = what the explorer covered. Scenarios named *-lg (the lock-order, read-modify-write, link, fan, "
+            "force families and a sample of random blocks) run with lockgran=1: decision points inside commit() before each lock, before "
+            "the write-back and before the publish; commit order = order of the 'all locks held' points; statistics under "
+            "sched.lock_granularity (schedules with a preemption inside commit, most locks held by a preempted committer, failed try-locks).",
     "not_proved": [
         "lock granularity (Model/StmProtoB.lean, theorem C07_serializable_B) IS proved for the model in which commit() takes the locks "
         "one variable at a time, validates each variable under its lock, blocks on incompatible locks, and finally publishes in one "
         "step, for EVERY order of lock acquisition that loses no variable; absence of deadlock IS proved (Props/C07Live.lean, "
         "C07_no_deadlock_B) for the instance of the model that locks in a fixed global order (variables sorted along an injective rank = "
         "the BTreeMap<address> walk of the real commit): in every reachable state with an unfinished thread some unfinished thread is not "
-        "waiting for a lock; the same two programs deadlock under per-thread log order (decide example). NOT proved: termination of "
+        "waiting for a lock; the same two programs deadlock under per-thread log order (decide example) — the explorer exhibits both on "
+        "the real code (--selftest-lockorder: reversed walk for odd threads deadlocks on lock-wxy-wyx, the real address order never "
+        "does in any lockgran scenario). NOT proved: termination of "
         "the retry loop under a fair scheduler (livelock), parking_lot's queueing policy (a reader queued behind a waiting writer), the "
         "per-variable stores of the final publish step (one step in the model: every written variable is exclusively locked meanwhile), "
         "memory ordering, wait_for_change",
@@ -590,6 +602,48 @@ def remesh_random(rng, count, params=None, nthreads=(2,)):
     return out
 
 
+def lockorder_scenarios():
+    """commit() takes the locks of its variables one at a time: transactions that write the same variables in different
+    program orders (mirror of the Lean examples wxy / wyx of Props/C07Live.lean), a three-variable cycle, and writers
+    against a reader of both variables.  Only meaningful with lockgran=1."""
+    out = []
+    init = [gens.load_line(2, 4, 1, rows2(4, []), [0] * 5), "wv 1 0 0", "wv 2 0 0", "wv 3 0 0", "wa 1 1 10", "wa 1 2 20"]
+    w = lambda a, b, x: [f"wv {a} {x} {x}", f"wv {b} {x} {x}"]
+    fc = {"full_cap": 100000}
+    out.append(Scenario("lock-wxy-wyx", init, [[w(1, 2, 1)], [w(2, 1, 2)]], fc, tags={"lockorder"}))
+    out.append(Scenario("lock-wxy-wyx-attr", init, [[["wa 1 1 11", "wv 2 1 1"]], [["wv 2 2 2", "wa 1 1 12"]]], fc, tags={"lockorder"}))
+    out.append(Scenario("lock-cycle3", init, [[w(1, 2, 1)], [w(2, 3, 2)], [w(3, 1, 3)]], {"full_cap": 30000}, tags={"lockorder"}))
+    out.append(Scenario("lock-writers-vs-reader", init, [[w(1, 2, 1)], [w(2, 1, 2)], [["rv 1", "rv 2"]]], {"full_cap": 30000}, tags={"lockorder"}))
+    out.append(Scenario("lock-wxy-wyx-twice", init, [[w(1, 2, 1), w(2, 1, 3)], [w(2, 1, 2), w(1, 2, 4)]], fc, tags={"lockorder"}))
+    return out
+
+
+def lockgran_scenarios(seed, quick):
+    """the subset explored at LOCK granularity (`lockgran=1`: decision points before every lock acquisition of commit(), before
+    its write-back and before its publish phase; a committing thread is preempted while it holds parking_lot locks)"""
+    rng = random.Random(seed + 7)
+    tiny = {"preempt": 2 if quick else 3, "cap": 40000 if quick else 400000, "full_cap": 40000 if quick else 400000}
+    mid = {"preempt": 2 if quick else 3, "cap": 40000 if quick else 400000}
+    out = []
+    for s in lockorder_scenarios() + rmw_scenarios() + link_scenarios():
+        if any(op.split()[0] == "rmtx" for th in s.threads for tx in th for op in tx):
+            continue    # the lock order is the ADDRESS order: needs a map that hcsched can reset instead of rebuilding
+        s.params = dict(tiny)
+        out.append(s)
+    for s in fan_scenarios() + force_scenarios():
+        s.params = dict(mid)
+        out.append(s)
+    out += random_scenarios(rng, 16 if quick else 120, params=dict(mid), prefix="rnd")
+    out += random_scenarios(rng, 4 if quick else 30, nthreads=(3,), params={"preempt": 1 if quick else 2, "cap": 5000 if quick else 50000,
+                                                                          "random": 200 if quick else 2000, "pct": 200 if quick else 2000},
+                            prefix="rnd-mt")
+    for s in out:
+        s.name += "-lg"
+        s.tags = set(s.tags) | {"lockgran"}
+        s.params["lockgran"] = 1
+    return out
+
+
 DEEP = {"fan-sew-obs-m0", "fan-unsew-resew-m1", "sew3-unsew3-vs-queries", "query-vs-link-unlink", "d4-sew3-vs-link1-m0",
         "d3-insv-vs-insv"}
 
@@ -621,6 +675,7 @@ def scenarios(tier, seed):
     scs += random_scenarios(rng, 12 if quick else 100, nthreads=(3, 4), params=big, prefix="rnd-mt")
     scs += random_scenarios(rng, 4 if quick else 40, nthreads=(3,), params=big, mask=31, prefix="rnd3d-mt", dim=3)
     scs += remesh_random(rng, 24 if quick else 100, params={} if quick else {"cap": 100000})
+    scs += lockgran_scenarios(seed, quick)
     if not quick:
         # the hand-written scenarios again with long random / PCT tails
         for s in rmw_scenarios() + link_scenarios() + query_scenarios() + fan_scenarios() + three_d_scenarios() + d4_scenarios() + d3_scenarios() \
@@ -790,7 +845,7 @@ def oracle(case, li):
         if why is None:
             STATS["deadlocks_reproduced_sequentially"] = STATS.get("deadlocks_reproduced_sequentially", 0) + 1
             return None
-        return "deadlock: every unfinished thread waits in a blocking retry; " + why
+        return "deadlock: every unfinished thread waits for a lock or in a blocking retry; " + why
     if o["status"] != "ok":
         return f"{o['status']}: the schedule ends in {o['status']}"
     if any(r in ("tx panic", "panic") for r in flat.values()):
@@ -989,7 +1044,10 @@ def check_scenarios(binary, scs, jobs=4):
     agg = {"scenarios": len(scs), "schedules": 0, "by_mode": {}, "distinct_outcomes": 0, "retries": 0, "runs_with_retry": 0,
            "atomic_reads": 0, "first_reads": 0, "stm_blocks": 0, "diverged_replays": 0, "max_preemptions": 0, "exhaustive_scenarios": 0,
            "truncated_scenarios": 0, "scenarios_with_retries": 0, "scenarios_with_2plus_commit_orders": 0,
-           "max_distinct_commit_orders": 0, "max_steps_per_run": 0, "by_family": {}}
+           "max_distinct_commit_orders": 0, "max_steps_per_run": 0, "by_family": {},
+           "lock_granularity": {"scenarios": 0, "schedules": 0, "schedules_with_preemption_inside_commit": 0,
+                                "max_locks_held_at_preemption": 0, "lock_waits": 0, "lock_acquisitions": 0,
+                                "exhaustive_scenarios": 0, "distinct_outcomes": 0}}
     for s in scs:
         r = res[s.name]
         for e in r["errors"]:
@@ -1009,7 +1067,18 @@ def check_scenarios(binary, scs, jobs=4):
             agg["scenarios_with_retries"] += sm["retries"] > 0
             agg["scenarios_with_2plus_commit_orders"] += sm["distinct_commit_orders"] >= 2
             agg["max_distinct_commit_orders"] = max(agg["max_distinct_commit_orders"], sm["distinct_commit_orders"])
-            fam = sorted(s.tags - {"raw"})[0] if s.tags - {"raw"} else "other"
+            fam = sorted(s.tags - {"raw", "lockgran"})[0] if s.tags - {"raw", "lockgran"} else "other"
+            if "lockgran" in s.tags:
+                fam += "@lock"
+                lg = agg["lock_granularity"]
+                lg["scenarios"] += 1
+                lg["schedules"] += sm["schedules"]
+                lg["schedules_with_preemption_inside_commit"] += sm.get("runs_with_commit_preemption", 0)
+                lg["max_locks_held_at_preemption"] = max(lg["max_locks_held_at_preemption"], sm.get("max_locks_held_at_preemption", 0))
+                lg["lock_waits"] += sm.get("lock_waits", 0)
+                lg["lock_acquisitions"] += sm.get("lock_acquires", 0)
+                lg["exhaustive_scenarios"] += bool(sm["exhaustive"])
+                lg["distinct_outcomes"] += sm["distinct_outcomes"]
             f = agg["by_family"].setdefault(fam, {"scenarios": 0, "schedules": 0, "outcomes": 0, "retries": 0})
             f["scenarios"] += 1
             f["schedules"] += sm["schedules"]
@@ -1217,7 +1286,63 @@ def selftest_repo():
     return 0 if ok else 1
 
 
+def selftest_lockorder():
+    """scratch copy of the workspace whose commit() walks its variables in REVERSE order on odd thread numbers (two lock orders):
+    the lock-granularity exploration of the lock-order family must find a DEADLOCK with a witness schedule; the unmodified
+    vendored crate (one global order = address order) must not, on the same scenarios."""
+    scratch = os.path.join(hv.BUILD, "sched-selftest-lock")
+    shutil.rmtree(scratch, ignore_errors=True)
+    shutil.copytree(SCHED, scratch, ignore=shutil.ignore_patterns("target"))
+    cfg = os.path.join(scratch, ".cargo", "config.toml")
+    text = open(cfg).read().replace("/verif/.build/sched-target", os.path.join(hv.BUILD, "sched-selftest-lock-target"))
+    open(cfg, "w").write(text)
+    p = os.path.join(scratch, "vendor", "fast-stm", "src", "transaction", "mod.rs")
+    src = open(p).read()
+    old = "        for (var, value) in &self.vars {\n            // lock the variable and read the value\n"
+    assert src.count(old) == 1
+    new = ("        let verif_walk: Vec<_> = if crate::verif::thread_id() % 2 == 1 { self.vars.iter().rev().collect() } "
+           "else { self.vars.iter().collect() };\n"
+           "        for (var, value) in verif_walk {\n            // lock the variable and read the value\n")
+    open(p, "w").write(src.replace(old, new))
+    ok_tie, msg, _ = vendor_tie(os.path.join(scratch, "vendor", "fast-stm"))
+    print("tie check on the mutated copy:", "REJECTED (" + msg + ")" if not ok_tie else "accepted (BAD)")
+    rc, out = hv.sh(["cargo", "build", "--release", "--offline"], cwd=scratch, timeout=3000)
+    if rc != 0:
+        print(out[-2000:])
+        return 2
+    mutant = os.path.join(hv.BUILD, "sched-selftest-lock-target", "release", "hcsched")
+    ok, log, pristine = build_sched()
+    if not ok:
+        print(log[-2000:])
+        return 2
+    hv.cargo_build()
+    hv.lake_build(["hcmodel"])
+
+    def fam():
+        scs = [s for s in lockgran_scenarios(20260926, True) if "lockorder" in s.tags]
+        for s in scs:
+            s.params.setdefault("seed", 1)
+        return scs
+
+    verdict = True
+    for name, binary, want_deadlock in (("two lock orders (reversed walk on odd threads)", mutant, True),
+                                        ("one global lock order (unmodified vendored crate)", pristine, False)):
+        r, res = check_scenarios(binary, fam(), jobs=3)
+        dl = [v for v in r["violations"] if str(v.get("replay", {}).get("oracle_failure", "")).startswith("deadlock")]
+        lg = r["stats"]["sched"]["lock_granularity"]
+        print(f"{name}: {lg['schedules']} schedules, {lg['schedules_with_preemption_inside_commit']} with a preemption inside commit, "
+              f"{lg['lock_waits']} lock waits; {len(r['violations'])} violations, {len(dl)} deadlock outcome(s)")
+        for v in dl[:2]:
+            print("   ", v["replay"]["case"], "witness schedule:", v["replay"]["witness_schedule"])
+        hit = any(v["replay"]["case"].startswith("lock-wxy-wyx-lg") for v in dl)
+        verdict = verdict and (hit if want_deadlock else not r["violations"])
+    print("SELFTEST-LOCKORDER", "PASSED: two lock orders deadlock (witness above), the address order never does" if (verdict and not ok_tie) else "FAILED")
+    return 0 if (verdict and not ok_tie) else 1
+
+
 if __name__ == "__main__":
+    if "--selftest-lockorder" in sys.argv:
+        sys.exit(selftest_lockorder())
     if "--selftest" in sys.argv:
         sys.exit(selftest())
     if "--selftest-repo" in sys.argv:
